@@ -7,10 +7,12 @@ import (
 	"errors"
 	"fmt"
 	"io"
+	"net"
 	"reflect"
 	"sort"
 	"strings"
 	"testing/iotest"
+	"time"
 
 	"github.com/gregoryv/mq"
 
@@ -376,3 +378,22 @@ func boundaryProbes(c *sim.Ctx, frame []byte) {
 		}
 	}
 }
+
+// connWriter is a writer that is ALSO a net.Conn (what a program normally hands
+// to WriteTo: a TCP or TLS connection). It accepts everything.
+type connWriter struct{ b []byte }
+
+func (w *connWriter) Write(p []byte) (int, error) { w.b = append(w.b, p...); return len(p), nil }
+func (w *connWriter) Read(p []byte) (int, error)  { return 0, io.EOF }
+func (w *connWriter) Close() error                { return nil }
+func (w *connWriter) LocalAddr() net.Addr {
+	return &net.TCPAddr{IP: net.IPv4(127, 0, 0, 1), Port: 40000}
+}
+func (w *connWriter) RemoteAddr() net.Addr {
+	return &net.TCPAddr{IP: net.IPv4(127, 0, 0, 1), Port: 1883}
+}
+func (w *connWriter) SetDeadline(time.Time) error      { return nil }
+func (w *connWriter) SetReadDeadline(time.Time) error  { return nil }
+func (w *connWriter) SetWriteDeadline(time.Time) error { return nil }
+
+var _ net.Conn = (*connWriter)(nil)
